@@ -1,0 +1,61 @@
+//go:build verif
+
+package scrypt
+
+// Contracts for govc (/verif). Comments only.
+
+//@ func blockCopy
+//@ props C16
+//@ requires 0 <= n && n <= len(src) && n <= len(dst)
+//@ modifies dst[0:n]
+
+//@ func blockXOR
+//@ props C16
+//@ requires 0 <= n && n <= len(src) && n <= len(dst)
+//@ modifies dst[0:n]
+//@ loop 1 invariant -1 <= rangeindex && rangeindex < n
+
+//@ func salsaXOR
+//@ props C16
+//@ nonnil tmp
+//@ requires len(in) >= 16 && len(out) >= 16
+//@ modifies *tmp
+//@ modifies out[0:16]
+
+//@ func blockMix
+//@ props C16
+//@ nonnil tmp
+//@ requires r >= 1 && r <= 36028797018963967
+//@ requires len(in) >= 32*r && len(out) >= 32*r
+//@ modifies *tmp
+//@ modifies out[0:32*r]
+//@ loop 1 invariant 0 <= i && i % 2 == 0
+
+//@ func integer
+//@ props C16
+//@ pure
+//@ requires r >= 1 && r <= 36028797018963967
+//@ requires len(b) >= 32*r
+//@ ensures 0 <= result
+
+//@ func smix
+//@ props C16
+//@ requires r >= 1 && r <= 36028797018963967
+//@ requires N >= 2 && N % 2 == 0
+//@ requires 32*N*r <= 9223372036854775807
+//@ requires len(b) >= 128*r && len(xy) >= 64*r && len(v) >= 32*N*r
+//@ modifies b[0:128*r]
+//@ modifies v
+//@ modifies xy
+//@ loop 1 invariant 0 <= i && i <= 32*r && j == 4*i
+//@ loop 2 invariant 0 <= i && i % 2 == 0
+//@ loop 3 invariant 0 <= i
+//@ loop 4 invariant -1 <= rangeindex && rangeindex < 32*r && j == 4*(rangeindex+1)
+
+//@ func Key
+//@ props C16
+//@ note "arguments that do not exhaust memory": the two scratch slices and the
+//@ note intermediate buffer fit the runtime's allocation limit (2^48 bytes)
+//@ requires implies(N > 1 && r > 0 && p > 0, 128*N*r <= 281474976710656 && keyLen <= 137438953440)
+//@ ensures implies(result1 == nil, len(result0) == keyLen)
+//@ ensures implies(N <= 1 || r <= 0 || p <= 0, result1 != nil)
